@@ -17,7 +17,7 @@ def selftest(tier):
 
 
 def obligations(tier, seed):
-    t = 400 if tier == 'quick' else 1800
+    t = 900 if tier == 'quick' else 2400
     n = len(skeletons.HOIST_TEMPLATES)
     combos = [(True, False), (True, True), (False, False), (False, True)]
     shards = []
